@@ -71,7 +71,7 @@ fn load_cas(slot: usize) -> Body {
     })
 }
 
-pub const CELL_LETTERS: i64 = 10;
+pub const CELL_LETTERS: i64 = 11;
 
 pub fn gen_cell_cases(k1: usize, k2: usize) -> i64 {
     CELL_LETTERS.pow((k1 + k2) as u32)
@@ -139,6 +139,14 @@ fn gen_concurrent(p: &Params) -> Program {
                     }
                     8 => {
                         circ::verif::try_advance();
+                    }
+                    10 => {
+                        // the weak variant with an expected value whose stamp differs from the
+                        // content's: its retry path
+                        let exp = crate::world::TS { s: w.rc[0].get().snapshot(&g.g), gid: g.gid };
+                        if let Some(cur) = finish(c, c.cas(cell, exp, c.clone_rc(w.rc[2].get()), &g, true)) {
+                            last = cur;
+                        }
                     }
                     _ => {
                         let des = c.clone_rc(w.rc[0].get()).with_tag(1);
@@ -227,6 +235,13 @@ fn gen_wconcurrent(p: &Params) -> Program {
                         let s = c.load(&w.roots[1], &g);
                         let stamped = c.ws_counted(c.sdowngrade(s));
                         c.wstore(cell, stamped, &g);
+                    }
+                    10 => {
+                        let s = c.load(&w.roots[1], &g);
+                        let exp = c.sdowngrade(s);
+                        if let Some(cur) = finish(c, c.wcas(cell, exp, c.wclone(w.weak[2].get()), &g, true)) {
+                            last = cur;
+                        }
                     }
                     _ => {
                         let des = c.wclone(w.weak[0].get()).with_tag(1);
